@@ -2,6 +2,7 @@
 # Builds the driver and warms the build cache (std with go1.26.8, race runtime) offline.
 set -u
 HERE="$(cd "$(dirname "$0")" && pwd)"
+export VERIF_ROOT="$HERE"
 export GOFLAGS=-mod=mod GOPROXY=off GOSUMDB=off GOTOOLCHAIN=local
 GO=/opt/veriftools/go1.26.8/bin/go
 [ -x "$GO" ] || GO=go1.26.8
@@ -10,4 +11,6 @@ cd "$HERE/sim" || exit 2
 "$GO" build -o "$HERE/bin/verif" ./cmd/verif || exit 2
 "$GO" vet ./core ./simio ./ref ./worlds ./cmd/... || exit 2
 "$GO" test -count=1 -run 'TestSelf' ./worlds || exit 2
+# warm the race-enabled build of the instrumented driver (first build compiles the race runtime)
+VERIF_RUNS=32 "$HERE/bin/verif" check C17 quick >/dev/null 2>&1 || { echo "setup: C17 warm-up run failed (exit $?)" >&2; }
 echo "setup ok"
